@@ -28,6 +28,10 @@ DKEYS = [["k"], ["obj"], [".."], ["..", "b2", "obj"], ["..", "..", "outside", "s
          ["..", "b2"], ["a", "..", "obj"], ["", "obj"], ["..", "..", "outside"]]
 
 
+PREFIXES = [["..", "b2", ""], ["..", "..", "outside", ""], [".uploads", ""], [".uploads", "u1", ""], ["a", ""],
+            ["a", "..", "..", "b2", ""], ["..", ""], ["a", "x"], ["..", "b2", "o"], ["", ""]]
+
+
 def tup(x):
     return tuple(tup(y) if isinstance(y, list) else y for y in x)
 
@@ -41,7 +45,8 @@ def consts(ctx, maxops):
         r = random.Random(ctx.seed)
         dsets += [[r.choice(DKEYS), r.choice(DKEYS)] for _ in range(12)]
     return {"B": "b1", "Dec": dec, "Keys": {tup(k) for k in KEYS}, "Uids": {tup(u) for u in UIDS},
-            "Srcs": {tup(s) for s in SRCS}, "DKeySets": {tup(d) for d in dsets}, "Alphabet": set(ALPHABET),
+            "Srcs": {tup(s) for s in SRCS}, "DKeySets": {tup(d) for d in dsets},
+            "Prefixes": {tup(p) for p in PREFIXES}, "Alphabet": set(ALPHABET),
             "MaxLen": 3 if ctx.thorough else 2, "MaxOps": maxops}
 
 
@@ -53,16 +58,34 @@ def run(ctx):
     # one TLC run: model-checks the design properties over the whole request grammar (path algebra,
     # narrowness of the deviation preconditions, satisfiability and non-vacuity of the strict rule)
     # and emits the grammar as the script
-    g = ctx.instance("G_S3Cont", "S3Containment", mc_cfg + "INVARIANT Emit\n", consts(ctx, 1))
-    with ThreadPoolExecutor(max_workers=2) as pool:
-        fb = pool.submit(ctx.build, "c29")
-        fh = pool.submit(ctx.generate, g, "W", 4, 900)
-        hists, binp = fh.result(), fb.result()
     if ctx.replay:
         script = ctx.replay
+        binp = ctx.build("c29")
     else:
+        g = ctx.instance("G_S3Cont", "S3Containment", mc_cfg + "INVARIANT Emit\n", consts(ctx, 1))
+        with ThreadPoolExecutor(max_workers=2) as pool:
+            fb = pool.submit(ctx.build, "c29")
+            fh = pool.submit(ctx.generate, g, "W", 4, 900)
+            hists, binp = fh.result(), fb.result()
         rng = random.Random(ctx.seed)
+        all_hists = list(hists)
+        ctx.notes["requests_total"] = len(hists)
+        if not ctx.thorough:
+            # quick: every upload-id / copy-source / batch / bucket / list request, every curated key on every
+            # key route, and a seeded third of the enumerated token sequences
+            cur = {tup(k) for k in KEYS}
+            hists = [h for h in hists if tup(h[0]["ktok"]) in cur or h[0]["ktok"] == ["k"] or rng.random() < 0.34]
+        # two-request executions built from the TLC-generated requests: re-tagging an escaping key leaves an
+        # orphan entry at the literal path; a later delimiter listing with the matching prefix purges through it
+        def find(route, **kw):
+            return [h[0] for h in all_hists if h[0]["route"] == route and all(h[0][k] == v for k, v in kw.items())]
+        pairs = []
+        for k, pfx in ((["..", "..", "outside", "dir"], ["..", "..", "outside", ""]), (["..", "b2"], ["..", ""])):
+            for t in find("PutObjectTagging", ktok=k):
+                for l in find("ListObjectsV1", ptok=pfx, delim="/") + find("ListObjectsV2", ptok=pfx, delim="/"):
+                    pairs.append([t, l])
         rng.shuffle(hists)
+        hists += pairs
         ctx.notes["requests"] = len(hists)
         with open(script, "w") as f:
             for h in hists:
@@ -86,10 +109,10 @@ def run(ctx):
               nontrivial=lambda e: any('"st":' in x for x in e), mutate=mutate)
     ctx.rule = ("requests = TLC-enumerated grammar: 11 key routes x (curated hostile keys + all token sequences up to "
                 "length 2 (thorough 3) over {.., a, empty, b2, %2e%2e, .uploads}), 5 upload-id routes x 13 upload ids, "
-                "2 copy routes x 12 copy sources, batch deletes of 1-2 keys, 6 bucket routes; each sent to a real "
+                "2 copy routes x 12 copy sources, batch deletes of 1-2 keys, 6 bucket routes, 2 list routes x 10 hostile prefixes x delimiter; each sent to a real "
                 "unauthenticated gateway with a second bucket and sentinels outside; non-trivial = some filer call was "
                 "made; distinct by hash of the recorded execution")
-    ctx.exhaustive = True
+    ctx.exhaustive = ctx.thorough
     ctx.assumptions += [
         "touched paths: gRPC requests are mapped to the entry the filer handler resolves them to by calling the same "
         "exported helper the handler calls (util.JoinPath for LookupDirectoryEntry/DeleteEntry/UpdateEntry's find, "
